@@ -476,6 +476,10 @@ class Evaluator:
             target = self.lookup(name, env)
             for args, cs in self.ev_many(node.args, env):
                 if any(self.is_sym(a) for a in args) or any(self.is_sym(a) for a in kw.values()):
+                    if getattr(target, "_kse_opaque", False):
+                        # a stand-in supplied by the harness for an environment call (open, a codec constructor): it accepts terms
+                        yield target(*args, **kw), cs
+                        continue
                     yield from self.inline(name, target, args, kw, cs)
                     continue
                 yield target(*args, **kw), cs
@@ -607,6 +611,9 @@ class Evaluator:
         if z3.is_string(recv) and attr == "rpartition":
             raise Untranslatable("rpartition of symbolic string")
         if not self.is_sym(recv) and not any(self.is_sym(a) for a in args):
+            yield getattr(recv, attr)(*args, **kw), cs
+            return
+        if not self.is_sym(recv) and getattr(recv, "_kse_opaque", False):
             yield getattr(recv, attr)(*args, **kw), cs
             return
         raise Untranslatable(f"method {attr} on symbolic value")
